@@ -49,6 +49,9 @@ def convert(elaboratable, name="top", platform=None, *, ports=None, emit_src=Tru
         for path, member, value in elaboratable.signature.flatten(elaboratable):
             if isinstance(value, _ast.ValueCastable):
                 value = value.as_value()
+            if isinstance(value, _ast.Const):
+                # See the same code in `rtlil.convert()`.
+                continue
             if isinstance(value, _ast.Value):
                 if member.flow == wiring.In:
                     dir = _ir.PortDirection.Input
